@@ -11,7 +11,6 @@ from core import *
 
 NEEDS = ["Jacobian", "JacobianProofs", "JacobianReal", "Corr"]
 GUARD_DELAYED = "no_delayed_factor_in_j0"
-GUARD_IDCHAIN = "no_identity_chain_product"     # finding C12-F5: loud TypeError of get_jacobian_func at compile time
 
 
 def _switch(name):
@@ -193,9 +192,7 @@ def impl(case):
             a = [float(Fr(pt["t"])), y] + ([hist_of(pt, smap)] if dde else []) + [dy] + pvals(names, args, pt, first)
             F.append(fracs(np.array(f(*a), dtype=np.float64)))
         out["F"] = F
-    except Exception as e:      # get_run_func does not produce a vector field for this model: there is no reference to compare with
-        return {"skip": "get_run_func failed", "type": type(e).__name__, "msg": str(e)[:200]}
-    finally:
+    finally:    # an exception of get_run_func is no longer skipped (D38/D80 repaired the known causes): it is reported like any crash
         pyr.reset_pyrates()
 
     # ---- the Jacobian(s)
@@ -761,13 +758,6 @@ def identity_markers(case):
     return n
 
 
-def is_idchain_failure(case, out):
-    """the symptom of finding C12-F5 and nothing else: get_jacobian_func (not get_run_func) raises sympy's sort TypeError on a
-    model with at least two identity markers"""
-    return (isinstance(out, dict) and out.get("err") == "exception" and out.get("type") == "TypeError"
-            and "StrictGreaterThan" in out.get("msg", "") and "get_jacobian_func" in out.get("tb", "") and identity_markers(case) >= 2)
-
-
 def check_defaults(case, out):
     """every argument of the generated functions is either a parameter set by the point or an edge weight the model knows"""
     ws = sorted(Fr(e[3]) for e in case["edges"])
@@ -913,9 +903,6 @@ def check(ctx):
     guard_viol = {}
     for i in res["delayed"]:
         guard_viol.setdefault(i, []).append(GUARD_DELAYED)
-    for i in crashed:
-        if is_idchain_failure(cases[i], outs[i]):
-            guard_viol.setdefault(i, []).append(GUARD_IDCHAIN)
     bad_impl = sorted(set(res["badI"]) | set(res["badF"]))
     smap_diff = [i for i in good if not cases[i].get("auto") and outs[i]["smap_run"] != outs[i]["dense"]["smap"]]
     n_au = [i for i in good if cases[i].get("auto")]
